@@ -317,6 +317,14 @@ def make_machine(ctx):
             fids = sorted(k for k, f in self.w.funcs.items() if f[0] == 'load')
             self.w.step(['load', data.draw(st.sampled_from(fids)), di, 'path'])
 
+        @precondition(lambda self: sum(1 for f in self.w.funcs.values() if f[0] == 'load') >= 2)
+        @rule(di=st.sampled_from([i for i, d in enumerate(W.DOCS)
+                                  if d.strip() in ('', '~', '# only a comment')]))
+        def same_small_document_to_every_load_function(self, di):
+            # one function's call must not change what the next one sees
+            for fid in sorted(k for k, f in self.w.funcs.items() if f[0] == 'load'):
+                self.w.step(['load', fid, di])
+
         @precondition(lambda self: len(self.w.history) % 7 == 6)
         @rule()
         def probe(self):
